@@ -192,6 +192,11 @@ pub fn run(ctx: &Ctx) -> Report {
                 if v <= 0o777 {
                     spellings.push(format!("{v:03o}"));
                 }
+                // longer spellings with leading zeros (a sample of the values gets one of 5..10 digits)
+                if v % 5 == 0 || v % 8 == 0 {
+                    let w = 5 + (v as usize % 6);
+                    spellings.push(format!("{v:0w$o}"));
+                }
                 for d in spellings {
                     let c = Case { prefix, arg: Arg::Octal(d), exec: true, all_modes: v % 53 == 0 };
                     let vd = judge(&c);
